@@ -327,8 +327,8 @@ func main() {
 	r := harness.Start("C16", "model_checking")
 	// two virtual pages x two PIDs; offsets are unique so a forwarded request identifies its access
 	streams := [][]reqSpec{
-		{{false, 0x1004, 4, 1, false}, {true, 0x1008, 4, 1, false}, {false, 0x1c10, 8, 2, false}},                          // same page+PID coalesce; same page other PID
-		{{true, 0x1ffc, 4, 1, true}, {false, 0x2fc0, 64, 1, false}, {false, 0x2840, 4, 2, false}},                             // page end / next page
+		{{false, 0x1004, 4, 1, false}, {true, 0x1008, 4, 1, false}, {false, 0x1c10, 8, 2, false}},                              // same page+PID coalesce; same page other PID
+		{{true, 0x1ffc, 4, 1, true}, {false, 0x2fc0, 64, 1, false}, {false, 0x2840, 4, 2, false}},                              // page end / next page
 		{{false, 0x1020, 4, 2, false}, {false, 0x2024, 4, 2, false}, {true, 0x1028, 8, 2, true}, {false, 0x1030, 4, 1, false}}, // interleaved pages, return to first
 	}
 	long := []reqSpec{{false, 0x1004, 4, 1, false}, {true, 0x1008, 4, 1, false}, {false, 0x100c, 8, 2, false}, {true, 0x2010, 8, 1, true}, {false, 0x1018, 16, 1, false}}
@@ -349,6 +349,21 @@ func main() {
 				b = bound - 1
 			}
 			add(fmt.Sprintf("stream%d/width%d/noflush", si, wd), cfg{width: wd, log2Page: 12, stream: st}, b)
+		}
+	}
+	// page sizes other than 4 KiB (the builder's default): offsets that use the bits between 12 and the page size, and
+	// small pages whose number takes bits below 12
+	for _, lp := range []uint64{10, 16, 21} {
+		pg := uint64(1) << lp
+		st := []reqSpec{
+			{false, 1*pg | 0x4, 4, 1, false},
+			{true, 1*pg | pg/2 | 0x8, 4, 1, true},    // offset with its top bit set
+			{false, 2*pg - 64, 64, 1, false},         // last line of page 1
+			{false, 2*pg | pg/4 | 0x40, 4, 2, false}, // next page, other PID
+			{true, 1*pg | (pg - 128), 8, 2, false},   // near the end of page 1, other PID
+		}
+		for _, wd := range []int{1, 2} {
+			add(fmt.Sprintf("page2^%d/width%d/noflush", lp, wd), cfg{width: wd, log2Page: lp, stream: st}, bound-1)
 		}
 	}
 	flushPoints := []int{2, 3, 4, 5, 6, 8}
